@@ -174,3 +174,479 @@ Proof.
   - destruct (dec_guc (skipn 12 pkt)) as [h|] eqn:D; [|discriminate]. injection Ha as <-.
     rewrite (own_lsrep _ _ _ _ _ _ _ _ D Hm). split; [reflexivity | apply quiet_discard].
 Qed.
+
+(* ============ helpers on outputs ============================================================ *)
+Lemma in_single {A} (x y : A) : In x [y] -> x = y.
+Proof. intros [H|[]]; auto. Qed.
+
+
+(* what a forwarded copy looks like: the received basic header with RHL - 1, RHL at least 2 *)
+Definition fwd_ok (bv p : list Z) : Prop :=
+  1 < arg 5 bv /\ exists rest, p = enc_basic (bv_rhl bv (arg 5 bv - 1)) ++ rest.
+
+Lemma fwd_plain_ok bv cv ext payload o : In o (fwd_plain bv cv ext payload) ->
+  exists p, o = OFwd p /\ fwd_ok bv p.
+Proof.
+  unfold fwd_plain. destruct (Z.ltb_spec 0 (arg 5 bv - 1)) as [H|H]; [|intros []].
+  intros [<-|[]]. eexists. split; [reflexivity|]. split; [lia|]. eexists. reflexivity.
+Qed.
+
+Lemma gbc_packet_ok bv cv h payload : 0 < arg 5 bv - 1 -> fwd_ok bv (gbc_packet bv cv h payload (arg 5 bv - 1)).
+Proof. intros H. split; [lia|]. unfold gbc_packet. eexists. reflexivity. Qed.
+
+Lemma guc_packet_ok bv cv hd pv de payload : 0 < arg 5 bv - 1 ->
+  fwd_ok bv (guc_packet bv cv hd pv de payload (arg 5 bv - 1)).
+Proof. intros H. split; [lia|]. unfold guc_packet. eexists. reflexivity. Qed.
+
+(* origination never produces OFwd / OInd *)
+Definition no_fwd_ind (os : list output) : Prop := forall o, In o os -> is_fwd o = false /\ is_ind o = false.
+
+Lemma no_fwd_ind_app a b : no_fwd_ind a -> no_fwd_ind b -> no_fwd_ind (a ++ b).
+Proof. intros Ha Hb o H. apply in_app_or in H as [H|H]; auto. Qed.
+
+Lemma send_lsreq_out m s sought : no_fwd_ind (snd (send_lsreq m s sought)).
+Proof. unfold send_lsreq. destruct (take_sn s). cbn. intros o [<-|[]]. split; reflexivity. Qed.
+
+Lemma ls_request_out m s sought req : no_fwd_ind (snd (ls_request m s sought req)).
+Proof.
+  unfold ls_request.
+  assert (G : forall s1, no_fwd_ind (snd (let '(s2, o) := send_lsreq m s1 sought in (s2, o ++ [OTimerStart 2 sought])))).
+  { intros s1. pose proof (send_lsreq_out m s1 sought) as H. destruct (send_lsreq m s1 sought) as [s2 o]. cbn in *.
+    apply no_fwd_ind_app; [exact H|]. intros x [<-|[]]. split; reflexivity. }
+  destruct (find (s_loct s) sought) as [e|].
+  - destruct (e_ls e).
+    + destruct req; [destruct (ls_find _ _)|]; cbn; intros o [].
+    + apply G.
+  - apply G.
+Qed.
+
+Lemma req_guc_out m s g dest r : no_fwd_ind (snd (req_guc m s g dest r)).
+Proof.
+  unfold req_guc. destruct (find (s_loct s) dest) as [e|]; [|apply ls_request_out].
+  destruct (match ls_find (s_ls s) dest with Some _ => true | None => false end); [apply ls_request_out|].
+  destruct (take_sn s) as [s1 n]. destruct (negb (has_nb s1) && z2b (arg 3 r)); [intros o []|].
+  destruct (greedy _ _ _ _ _) as [[|]|]; cbn; intros o H; try (destruct H as [<-|[]]; split; reflexivity); destruct H.
+Qed.
+
+Lemma flush_guc_out m g dest rs : forall s, no_fwd_ind (snd (flush_guc m s g dest rs)).
+Proof.
+  induction rs as [|r rs IH]; intros s; cbn; [intros o []|].
+  pose proof (req_guc_out m s g dest r) as H1. destruct (req_guc m s g dest r) as [s1 o1].
+  specialize (IH s1). destruct (flush_guc m s1 g dest rs) as [s2 o2]. cbn in *. apply no_fwd_ind_app; assumption.
+Qed.
+
+(* ============ C06: every forwarded copy carries RHL - 1, and none is made for RHL 0 or 1 ===== *)
+Lemma tsb_fwd m s now bv cv body p : In (OFwd p) (snd (rx_tsb m s now bv cv body)) -> fwd_ok bv p.
+Proof.
+  unfold rx_tsb. destruct (dec_tsb body) as [h|]; [|intros [H|[]]; discriminate].
+  destruct (mid_eqb _ _); [intros [H|[]]; discriminate|].
+  destruct (rx_mh _ _ _ _ _ _) as [t|]; [|intros [H|[]]; discriminate].
+  cbn [snd]. intros [H|H]; [discriminate|].
+  destruct (negb (has_nb _) && z2b (arg 3 cv)); [destruct H|].
+  apply fwd_plain_ok in H as (q & E & Hq). injection E as <-. exact Hq.
+Qed.
+
+Lemma beacon_fwd m s now body d p : (forall pv, match d with Some f => is_fwd (f pv) = false | None => True end) ->
+  In (OFwd p) (snd (rx_beacon m s now body d)) -> False.
+Proof.
+  intros Hd. unfold rx_beacon. destruct (dec_lpv body) as [pv|]; [|intros [H|[]]; discriminate].
+  destruct (mid_eqb _ _); [intros [H|[]]; discriminate|].
+  destruct d as [f|]; cbn; [|intros []]. intros [H|[]]. specialize (Hd pv). cbn in Hd. rewrite H in Hd. discriminate.
+Qed.
+
+Ltac in_cases H :=
+  repeat match type of H with
+         | In _ (_ ++ _) => apply in_app_or in H as [H|H]
+         | In _ (_ :: _) => destruct H as [H|H]
+         | In _ [] => destruct H
+         | In _ (if ?c then _ else _) => destruct c
+         end.
+
+Lemma gbc_fwd m s now g bv cv body p : In (OFwd p) (snd (rx_gbc m s now g bv cv body)) -> fwd_ok bv p.
+Proof.
+  unfold rx_gbc. cbv zeta. intros H.
+  repeat match type of H with
+         | context [match ?x with _ => _ end] => destruct x eqn:?
+         end; cbn [snd] in H; in_cases H; try discriminate;
+  try (injection H as <-; apply gbc_packet_ok; lia).
+Qed.
+
+Lemma gac_fwd m s now g bv cv body p : In (OFwd p) (snd (rx_gac m s now g bv cv body)) -> fwd_ok bv p.
+Proof.
+  unfold rx_gac. cbv zeta. intros H.
+  repeat match type of H with
+         | context [match ?x with _ => _ end] => destruct x eqn:?
+         end; cbn [snd] in H; in_cases H; try discriminate;
+  try (injection H as <-; apply gbc_packet_ok; lia).
+Qed.
+
+Lemma guc_fwd m s now g bv cv body p : In (OFwd p) (snd (rx_guc m s now g bv cv body)) -> fwd_ok bv p.
+Proof.
+  unfold rx_guc. cbv zeta. intros H.
+  repeat match type of H with
+         | context [match ?x with _ => _ end] => destruct x eqn:?
+         end; cbn [snd] in H; in_cases H; try discriminate;
+  try (injection H as <-; apply guc_packet_ok; lia).
+Qed.
+
+Lemma lsreq_fwd m s now bv cv body p : In (OFwd p) (snd (rx_lsreq m s now bv cv body)) -> fwd_ok bv p.
+Proof.
+  unfold rx_lsreq. cbv zeta. intros H.
+  repeat match type of H with
+         | context [match ?x with _ => _ end] => destruct x eqn:?
+         end; cbn [snd] in H; in_cases H; try discriminate.
+  apply fwd_plain_ok in H as (q & E & Hq). injection E as <-. exact Hq.
+Qed.
+
+Lemma lsrep_fwd m s now g bv cv body p : In (OFwd p) (snd (rx_lsrep m s now g bv cv body)) -> fwd_ok bv p.
+Proof.
+  unfold rx_lsrep. cbv zeta. intros H.
+  destruct (dec_guc body) as [h|]; [|cbn [snd] in H; in_cases H; discriminate].
+  destruct (mid_eqb (pv_addr (firstn 9 (skipn 2 h))) (m_addr m)); [cbn [snd] in H; in_cases H; discriminate|].
+  destruct (rx_mh _ _ _ _ _ _) as [t|]; [|cbn [snd] in H; in_cases H; discriminate].
+  destruct (mid_eqb (firstn 3 (skipn 11 h)) (m_addr m)).
+  - match type of H with context [flush_guc ?m ?s ?g ?d ?rs] =>
+      pose proof (flush_guc_out m g d rs s) as F; destruct (flush_guc m s g d rs) as [s3 o] end.
+    cbn [snd] in *. apply in_app_or in H as [H|H].
+    + destruct (match ls_find _ _ with Some _ => true | None => false end); in_cases H; discriminate.
+    + destruct (F _ H) as [C _]. discriminate.
+  - destruct (Z.ltb_spec 0 (arg 5 bv - 1)); cbn [snd] in H; in_cases H; try discriminate.
+    injection H as <-. apply guc_packet_ok. lia.
+Qed.
+
+Theorem forwarded_copy_has_rhl_minus_1 m s now g pkt bv p :
+  dec_basic pkt = Some bv -> In (OFwd p) (snd (rx m s now g pkt)) -> fwd_ok bv p.
+Proof.
+  unfold rx. cbv zeta. intros -> H.
+  destruct (negb (arg 0 bv =? 1)); [cbn [snd] in H; in_cases H; discriminate|].
+  destruct (arg 1 bv =? 2); [cbn [snd] in H; in_cases H; discriminate|].
+  destruct (negb (arg 1 bv =? 1)); [cbn [snd] in H; in_cases H; discriminate|].
+  destruct (dec_common (skipn 4 pkt)) as [cv|]; [|cbn [snd] in H; in_cases H; discriminate].
+  destruct (arg 8 cv <? arg 5 bv); [cbn [snd] in H; in_cases H; discriminate|].
+  destruct (arg 1 cv =? 1). { exfalso. eapply beacon_fwd; [|exact H]. intros; exact I. }
+  destruct (arg 1 cv =? 2). { eapply guc_fwd; exact H. }
+  destruct (arg 1 cv =? 3). { eapply gac_fwd; exact H. }
+  destruct (arg 1 cv =? 4). { eapply gbc_fwd; exact H. }
+  destruct (arg 1 cv =? 5).
+  { destruct (arg 2 cv =? 0); [|eapply tsb_fwd; exact H].
+    exfalso. eapply beacon_fwd; [|exact H]. intros pv. reflexivity. }
+  destruct (arg 1 cv =? 6); [|cbn [snd] in H; in_cases H; discriminate].
+  destruct (arg 2 cv =? 0); [eapply lsreq_fwd | eapply lsrep_fwd]; exact H.
+Qed.
+
+Corollary no_forward_for_rhl_0_or_1 m s now g pkt bv p :
+  dec_basic pkt = Some bv -> arg 5 bv <= 1 -> ~ In (OFwd p) (snd (rx m s now g pkt)).
+Proof. intros D Hr H. destruct (forwarded_copy_has_rhl_minus_1 _ _ _ _ _ _ _ D H) as [L _]. lia. Qed.
+
+(* packets waiting in the CBF buffer were put there with RHL - 1 >= 1 as well *)
+Lemma gbc_cbf_buffered m s now g bv cv body k p :
+  In (k, p) (s_cbf (fst (rx_gbc m s now g bv cv body))) -> In (k, p) (s_cbf s) \/ fwd_ok bv p.
+Proof.
+  unfold rx_gbc. cbv zeta. intros H.
+  repeat match type of H with
+         | context [match ?x with _ => _ end] => destruct x eqn:?
+         end; cbn [fst s_cbf set_cbf set_loct] in H; auto;
+  try (unfold cbf_remove in H; apply filter_In in H as [H _]; auto).
+  apply in_app_or in H as [H|H]; [auto|]. in_cases H. injection H as _ <-. right. apply gbc_packet_ok. lia.
+Qed.
+
+(* ============ C06: contention-based forwarding buffer ============================================ *)
+Lemma cbf_find_remove c k : cbf_find (cbf_remove c k) k = None.
+Proof.
+  unfold cbf_remove. induction c as [|[k' p] c IH]; cbn; [reflexivity|].
+  destruct (list_eqb k' k) eqn:E; cbn; [exact IH|]. rewrite E. exact IH.
+Qed.
+
+Theorem cbf_sent_at_most_once s key : cbf_fire (fst (cbf_fire s key)) key = (fst (cbf_fire s key), []).
+Proof.
+  unfold cbf_fire at 2 3. destruct (cbf_find (s_cbf s) key) eqn:F; cbn [fst].
+  - unfold cbf_fire. cbn [s_cbf set_cbf]. rewrite cbf_find_remove. reflexivity.
+  - unfold cbf_fire. rewrite F. reflexivity.
+Qed.
+
+Theorem cbf_duplicate_cancels m s now g bv cv body h p0 :
+  dec_gbc body = Some h -> zero_area (arg 2 cv) h = false ->
+  lookup_ins (g_ins g) (pv_lat (s_ego s)) (pv_lon (s_ego s)) <> None ->
+  mid_eqb (pv_addr (firstn 9 (skipn 2 h))) (m_addr m) = false ->
+  rx_mh (s_loct s) (firstn 9 (skipn 2 h)) (arg 0 h) now (m_life_ms m) (m_dpl_len m) = None ->   (* a duplicate *)
+  cbf_find (s_cbf s) (pv_addr (firstn 9 (skipn 2 h)) ++ [arg 0 h]) = Some p0 ->                 (* still buffered *)
+  let key := pv_addr (firstn 9 (skipn 2 h)) ++ [arg 0 h] in
+  let s' := fst (rx_gbc m s now g bv cv body) in
+  In (OTimerCancel 1 key) (snd (rx_gbc m s now g bv cv body)) /\ quiet (snd (rx_gbc m s now g bv cv body)) /\
+  cbf_fire s' key = (s', []).
+Proof.
+  intros D Z I A R F key s'. unfold s', key, rx_gbc. cbv zeta. rewrite D, Z.
+  destruct (lookup_ins _ _ _) as [inside|]; [|congruence]. rewrite A, R, F. cbn [fst snd].
+  split; [right; left; reflexivity|]. split.
+  - intros o H. cbn [snd] in H. in_cases H; subst; split; reflexivity.
+  - unfold cbf_fire. cbn [s_cbf set_cbf]. rewrite cbf_find_remove. reflexivity.
+Qed.
+
+(* ============ C06: a duplicate is neither delivered nor forwarded ================================= *)
+Theorem duplicate_quiet_tsb m s now bv cv body h : dec_tsb body = Some h ->
+  rx_mh (s_loct s) (skipn 2 h) (arg 0 h) now (m_life_ms m) (m_dpl_len m) = None ->
+  quiet (snd (rx_tsb m s now bv cv body)) /\ fst (rx_tsb m s now bv cv body) = s.
+Proof. unfold rx_tsb. intros -> R. destruct (mid_eqb _ _); [|rewrite R]; split; try reflexivity; apply quiet_discard. Qed.
+
+Theorem duplicate_quiet_gbc m s now g bv cv body h : dec_gbc body = Some h ->
+  rx_mh (s_loct s) (firstn 9 (skipn 2 h)) (arg 0 h) now (m_life_ms m) (m_dpl_len m) = None ->
+  quiet (snd (rx_gbc m s now g bv cv body)) /\ s_loct (fst (rx_gbc m s now g bv cv body)) = s_loct s.
+Proof.
+  unfold rx_gbc. cbv zeta. intros -> R. destruct (zero_area _ _); [split; [apply quiet_discard | reflexivity]|].
+  destruct (lookup_ins _ _ _); [|split; [|reflexivity]; intros o H; cbn [snd] in H; in_cases H; subst; split; reflexivity].
+  destruct (mid_eqb _ _); [split; [apply quiet_discard | reflexivity]|]. rewrite R.
+  destruct (cbf_find _ _); (split; [|reflexivity]); intros o H; cbn [snd] in H; in_cases H; subst; split; reflexivity.
+Qed.
+
+Theorem duplicate_quiet_gac m s now g bv cv body h : dec_gbc body = Some h ->
+  rx_mh (s_loct s) (firstn 9 (skipn 2 h)) (arg 0 h) now (m_life_ms m) (m_dpl_len m) = None ->
+  quiet (snd (rx_gac m s now g bv cv body)) /\ fst (rx_gac m s now g bv cv body) = s.
+Proof.
+  unfold rx_gac. cbv zeta. intros -> R. destruct (zero_area _ _); [split; [apply quiet_discard | reflexivity]|].
+  destruct (lookup_ins _ _ _); [|split; [|reflexivity]; intros o H; cbn [snd] in H; in_cases H; subst; split; reflexivity].
+  destruct (mid_eqb _ _); [|rewrite R]; (split; [apply quiet_discard | reflexivity]).
+Qed.
+
+Theorem duplicate_quiet_guc m s now g bv cv body h : dec_guc body = Some h ->
+  rx_mh (s_loct s) (firstn 9 (skipn 2 h)) (arg 0 h) now (m_life_ms m) (m_dpl_len m) = None ->
+  quiet (snd (rx_guc m s now g bv cv body)) /\ fst (rx_guc m s now g bv cv body) = s.
+Proof. unfold rx_guc. cbv zeta. intros -> R. destruct (mid_eqb _ _); [|rewrite R]; (split; [apply quiet_discard | reflexivity]). Qed.
+
+Theorem duplicate_quiet_lsreq m s now bv cv body h : dec_lsreq body = Some h ->
+  rx_mh (s_loct s) (firstn 9 (skipn 2 h)) (arg 0 h) now (m_life_ms m) (m_dpl_len m) = None ->
+  quiet (snd (rx_lsreq m s now bv cv body)) /\ fst (rx_lsreq m s now bv cv body) = s.
+Proof. unfold rx_lsreq. cbv zeta. intros -> R. destruct (mid_eqb _ _); [|rewrite R]; (split; [apply quiet_discard | reflexivity]). Qed.
+
+Theorem duplicate_quiet_lsrep m s now g bv cv body h : dec_guc body = Some h ->
+  rx_mh (s_loct s) (firstn 9 (skipn 2 h)) (arg 0 h) now (m_life_ms m) (m_dpl_len m) = None ->
+  quiet (snd (rx_lsrep m s now g bv cv body)) /\ fst (rx_lsrep m s now g bv cv body) = s.
+Proof. unfold rx_lsrep. cbv zeta. intros -> R. destruct (mid_eqb _ _); [|rewrite R]; (split; [apply quiet_discard | reflexivity]). Qed.
+
+(* ============ C06: the destination position vector of a forwarded unicast packet ================== *)
+Theorem de_refresh_only_newer t de : refresh_de t de = de \/
+  exists e, find t (firstn 3 de) = Some e /\ e_nb e = true /\ tst_gt (pv_tst (e_pv e)) (arg 3 de) = true /\
+            refresh_de t de = firstn 3 (e_pv e) ++ [pv_tst (e_pv e); pv_lat (e_pv e); pv_lon (e_pv e)].
+Proof.
+  unfold refresh_de. destruct (find t (firstn 3 de)) as [e|]; [|left; reflexivity].
+  destruct (e_nb e && tst_gt (pv_tst (e_pv e)) (arg 3 de)) eqn:E; [|left; reflexivity].
+  apply andb_true_iff in E as [E1 E2]. right. exists e. repeat split; auto.
+Qed.
+
+(* ============ C07: geo-addressed packets are delivered exactly inside the area ==================== *)
+Theorem gbc_delivered_iff_inside m s now g bv cv body h inside t :
+  dec_gbc body = Some h -> zero_area (arg 2 cv) h = false ->
+  lookup_ins (g_ins g) (pv_lat (s_ego s)) (pv_lon (s_ego s)) = Some inside ->
+  mid_eqb (pv_addr (firstn 9 (skipn 2 h))) (m_addr m) = false ->
+  rx_mh (s_loct s) (firstn 9 (skipn 2 h)) (arg 0 h) now (m_life_ms m) (m_dpl_len m) = Some t ->
+  ~ In OGeoMissing (snd (rx_gbc m s now g bv cv body)) ->
+  ((exists o, In o (snd (rx_gbc m s now g bv cv body)) /\ is_ind o = true) <-> inside = true) /\
+  (forall hd d, In (OInd hd d) (snd (rx_gbc m s now g bv cv body)) ->
+     d = skipn 44 body /\ hd = ind_hdr cv bv (firstn 9 (skipn 2 h)) (gbc_area h) 4 (arg 2 cv)).
+Proof.
+  intros D Z I A R. unfold rx_gbc. cbv zeta. rewrite D, Z, I, A, R. intros NG.
+  destruct inside; split.
+  - split; [reflexivity|]. intros _.
+    repeat match goal with
+           | |- context [match ?x with _ => _ end] => destruct x eqn:?
+           end; cbn [snd] in *; try (exfalso; apply NG; left; reflexivity);
+    eexists; (split; [left; reflexivity | reflexivity]).
+  - intros hd d H.
+    repeat match type of H with
+           | context [match ?x with _ => _ end] => destruct x eqn:?
+           end; cbn [snd] in H; in_cases H; try discriminate; injection H as <- <-; split; reflexivity.
+  - split; [|discriminate]. intros (o & H & Ho). exfalso.
+    repeat match type of H with
+           | context [match ?x with _ => _ end] => destruct x eqn:?
+           end; cbn [snd] in H; in_cases H; subst; discriminate.
+  - intros hd d H. exfalso.
+    repeat match type of H with
+           | context [match ?x with _ => _ end] => destruct x eqn:?
+           end; cbn [snd] in H; in_cases H; discriminate.
+Qed.
+
+Theorem gac_delivered_iff_inside m s now g bv cv body h inside t :
+  dec_gbc body = Some h -> zero_area (arg 2 cv) h = false ->
+  lookup_ins (g_ins g) (pv_lat (s_ego s)) (pv_lon (s_ego s)) = Some inside ->
+  mid_eqb (pv_addr (firstn 9 (skipn 2 h))) (m_addr m) = false ->
+  rx_mh (s_loct s) (firstn 9 (skipn 2 h)) (arg 0 h) now (m_life_ms m) (m_dpl_len m) = Some t ->
+  ~ In OGeoMissing (snd (rx_gac m s now g bv cv body)) ->
+  ((exists o, In o (snd (rx_gac m s now g bv cv body)) /\ is_ind o = true) <-> inside = true) /\
+  (inside = true -> snd (rx_gac m s now g bv cv body) =
+     [OInd (ind_hdr cv bv (firstn 9 (skipn 2 h)) (gbc_area h) 3 (arg 2 cv)) (skipn 44 body)]).   (* delivered, never forwarded *)
+Proof.
+  intros D Z I A R. unfold rx_gac. cbv zeta. rewrite D, Z, I, A, R. intros NG.
+  destruct inside; split.
+  - split; [reflexivity|]. intros _. eexists. split; [left; reflexivity | reflexivity].
+  - reflexivity.
+  - split; [|discriminate]. intros (o & H & Ho). exfalso.
+    repeat match type of H with
+           | context [match ?x with _ => _ end] => destruct x eqn:?
+           end; cbn [snd] in H; in_cases H; subst; discriminate.
+  - discriminate.
+Qed.
+
+(* area size control: an over-sized area is never forwarded *)
+Theorem oversized_area_not_forwarded_gbc m s now g bv cv body p : g_big g = true ->
+  ~ In (OFwd p) (snd (rx_gbc m s now g bv cv body)) /\
+  s_cbf (fst (rx_gbc m s now g bv cv body)) = s_cbf s \/
+  (exists k, s_cbf (fst (rx_gbc m s now g bv cv body)) = cbf_remove (s_cbf s) k) /\ ~ In (OFwd p) (snd (rx_gbc m s now g bv cv body)).
+Proof.
+  intros B. unfold rx_gbc. cbv zeta. rewrite B.
+  repeat match goal with
+         | |- context [match ?x with _ => _ end] => destruct x eqn:?
+         end; cbn [fst snd s_cbf set_cbf set_loct];
+  try (left; split; [intros H; in_cases H; discriminate | reflexivity]);
+  right; split; [eexists; reflexivity | intros H; in_cases H; discriminate].
+Qed.
+
+Theorem oversized_area_not_forwarded_gac m s now g bv cv body p : g_big g = true ->
+  ~ In (OFwd p) (snd (rx_gac m s now g bv cv body)).
+Proof.
+  intros B. unfold rx_gac. cbv zeta. rewrite B. intros H.
+  repeat match type of H with
+         | context [match ?x with _ => _ end] => destruct x eqn:?
+         end; cbn [snd] in H; in_cases H; discriminate.
+Qed.
+
+Theorem oversized_request_refused m s g r : g_big g = true -> req_geo m s g r = (s, [ODiscard 20]).
+Proof. intros B. unfold req_geo. rewrite B. reflexivity. Qed.
+
+(* ============ C08: the station's own address never enters the location table ==================== *)
+Definition no_own (m : mib) (t : list entry) : Prop := forall e, In e t -> mid_eqb (e_addr e) (m_addr m) = false.
+
+Lemma in_replace t e' e : In e (replace t e') -> In e t \/ e = e'.
+Proof.
+  induction t as [|x t IH]; cbn; [auto|]. destruct (list_eqb (e_addr x) (e_addr e')); cbn.
+  - intros [<-|H]; auto. - intros [<-|H]; auto. destruct (IH H); auto.
+Qed.
+
+Lemma in_upsert t e' e : In e (upsert t e') -> In e t \/ e = e'.
+Proof.
+  unfold upsert. destruct (find t (e_addr e')); [apply in_replace|].
+  intros H. apply in_app_or in H as [H|[<-|[]]]; auto.
+Qed.
+
+Lemma no_own_rx_shb m t pv now life : no_own m t -> mid_eqb (pv_addr pv) (m_addr m) = false ->
+  no_own m (rx_shb t pv now life).
+Proof.
+  intros Ht Hp e He. unfold rx_shb in He. pose proof (get_or_new_addr t (pv_addr pv)) as A.
+  destruct (get_or_new t (pv_addr pv)) as [e0 b]. cbn [fst] in A.
+  apply filter_In in He as [He _]. apply in_upsert in He as [He| ->]; [auto|].
+  cbn [e_addr]. destruct (update_frame e0 pv) as [-> _]. rewrite A. exact Hp.
+Qed.
+
+Lemma no_own_rx_mh m t pv sn now life len t' : no_own m t -> mid_eqb (pv_addr pv) (m_addr m) = false ->
+  rx_mh t pv sn now life len = Some t' -> no_own m t'.
+Proof.
+  intros Ht Hp R e He. unfold rx_mh in R. pose proof (get_or_new_addr t (pv_addr pv)) as A.
+  destruct (get_or_new t (pv_addr pv)) as [e0 b]. cbn [fst] in A.
+  destruct (check_dup _ _ _) as [d|]; [|discriminate]. injection R as <-.
+  apply filter_In in He as [He _]. apply in_upsert in He as [He| ->]; [auto|].
+  destruct (update_frame (mkEntry (e_addr e0) (e_pv e0) (e_set e0) (e_nb e0) (e_ls e0) d) pv) as [-> _].
+  cbn [e_addr]. rewrite A. exact Hp.
+Qed.
+
+Lemma no_own_set_ls m t a v : no_own m t -> mid_eqb a (m_addr m) = false -> no_own m (set_ls t a v).
+Proof.
+  intros Ht Ha e He. unfold set_ls in He. destruct (find t a) as [e0|] eqn:F.
+  - apply in_replace in He as [He| ->]; [auto|]. cbn [e_addr]. apply find_some in F as [Hin _]. auto.
+  - destruct v; [|auto]. apply in_app_or in He as [He|[<-|[]]]; [auto|]. exact Ha.
+Qed.
+
+Lemma take_sn_loct s : s_loct (fst (take_sn s)) = s_loct s.
+Proof. reflexivity. Qed.
+
+Lemma send_lsreq_loct m s a : s_loct (fst (send_lsreq m s a)) = s_loct s.
+Proof. unfold send_lsreq. destruct (take_sn s) eqn:E. cbn. pose proof (take_sn_loct s) as H. rewrite E in H. exact H. Qed.
+
+Lemma no_own_ls_request m s a req : no_own m (s_loct s) -> mid_eqb a (m_addr m) = false ->
+  no_own m (s_loct (fst (ls_request m s a req))).
+Proof.
+  intros Hs Ha. unfold ls_request.
+  assert (G : forall s1, no_own m (s_loct s1) ->
+            no_own m (s_loct (fst (let '(s2, o) := send_lsreq m s1 a in (s2, o ++ [OTimerStart 2 a]))))).
+  { intros s1 H1. pose proof (send_lsreq_loct m s1 a) as L. destruct (send_lsreq m s1 a). cbn in *. rewrite L. exact H1. }
+  destruct (find (s_loct s) a) as [e|].
+  - destruct (e_ls e).
+    + destruct req; [destruct (ls_find _ _)|]; cbn; exact Hs.
+    + apply G. cbn. apply no_own_set_ls; assumption.
+  - apply G. cbn. apply no_own_set_ls; assumption.
+Qed.
+
+Lemma no_own_req_guc m s g a r : no_own m (s_loct s) -> mid_eqb a (m_addr m) = false ->
+  no_own m (s_loct (fst (req_guc m s g a r))).
+Proof.
+  intros Hs Ha. unfold req_guc. destruct (find (s_loct s) a) as [e|]; [|apply no_own_ls_request; assumption].
+  destruct (match ls_find (s_ls s) a with Some _ => true | None => false end); [apply no_own_ls_request; assumption|].
+  destruct (take_sn s) as [s1 n] eqn:E. pose proof (take_sn_loct s) as L. rewrite E in L. cbn in L.
+  destruct (negb (has_nb s1) && z2b (arg 3 r)); [cbn; rewrite L; exact Hs|].
+  destruct (greedy _ _ _ _ _) as [[|]|]; cbn; try rewrite L; exact Hs.
+Qed.
+
+Lemma no_own_flush m g a rs : forall s, no_own m (s_loct s) -> mid_eqb a (m_addr m) = false ->
+  no_own m (s_loct (fst (flush_guc m s g a rs))).
+Proof.
+  induction rs as [|r rs IH]; intros s Hs Ha; cbn; [exact Hs|].
+  pose proof (no_own_req_guc m s g a r Hs Ha) as H1. destruct (req_guc m s g a r) as [s1 o1]. cbn in H1.
+  specialize (IH s1 H1 Ha). destruct (flush_guc m s1 g a rs) as [s2 o2]. exact IH.
+Qed.
+
+Theorem own_address_never_entered m s now g pkt : no_own m (s_loct s) -> no_own m (s_loct (fst (rx m s now g pkt))).
+Proof.
+  intros Hs. unfold rx. cbv zeta.
+  destruct (dec_basic pkt) as [bv|]; [|exact Hs].
+  destruct (negb (arg 0 bv =? 1)); [exact Hs|]. destruct (arg 1 bv =? 2); [exact Hs|].
+  destruct (negb (arg 1 bv =? 1)); [exact Hs|].
+  destruct (dec_common (skipn 4 pkt)) as [cv|]; [|exact Hs].
+  destruct (arg 8 cv <? arg 5 bv); [exact Hs|].
+  assert (B : forall d, no_own m (s_loct (fst (rx_beacon m s now (skipn 12 pkt) d)))).
+  { intros d. unfold rx_beacon. destruct (dec_lpv _) as [pv|]; [|exact Hs].
+    destruct (mid_eqb (pv_addr pv) (m_addr m)) eqn:E; [exact Hs|].
+    destruct d; cbn; apply no_own_rx_shb; assumption. }
+  destruct (arg 1 cv =? 1); [apply B|].
+  destruct (arg 1 cv =? 2).
+  { unfold rx_guc. cbv zeta. destruct (dec_guc _) as [h|]; [|exact Hs].
+    destruct (mid_eqb (pv_addr _) (m_addr m)) eqn:E; [exact Hs|].
+    destruct (rx_mh _ _ _ _ _ _) as [t|] eqn:R; [|exact Hs].
+    pose proof (no_own_rx_mh _ _ _ _ _ _ _ _ Hs E R) as Ht.
+    repeat match goal with |- context [match ?x with _ => _ end] => destruct x eqn:? end; cbn; assumption. }
+  destruct (arg 1 cv =? 3).
+  { unfold rx_gac. cbv zeta. destruct (dec_gbc _) as [h|]; [|exact Hs].
+    destruct (zero_area _ _); [exact Hs|]. destruct (lookup_ins _ _ _); [|exact Hs].
+    destruct (mid_eqb (pv_addr _) (m_addr m)) eqn:E; [exact Hs|].
+    destruct (rx_mh _ _ _ _ _ _) as [t|] eqn:R; [|exact Hs].
+    pose proof (no_own_rx_mh _ _ _ _ _ _ _ _ Hs E R) as Ht.
+    repeat match goal with |- context [match ?x with _ => _ end] => destruct x eqn:? end; cbn; assumption. }
+  destruct (arg 1 cv =? 4).
+  { unfold rx_gbc. cbv zeta. destruct (dec_gbc _) as [h|]; [|exact Hs].
+    destruct (zero_area _ _); [exact Hs|]. destruct (lookup_ins _ _ _); [|exact Hs].
+    destruct (mid_eqb (pv_addr _) (m_addr m)) eqn:E; [exact Hs|].
+    destruct (rx_mh _ _ _ _ _ _) as [t|] eqn:R.
+    - pose proof (no_own_rx_mh _ _ _ _ _ _ _ _ Hs E R) as Ht.
+      repeat match goal with |- context [match ?x with _ => _ end] => destruct x eqn:? end; cbn; assumption.
+    - match goal with |- context [cbf_find ?c ?k] => destruct (cbf_find c k) end; exact Hs. }
+  destruct (arg 1 cv =? 5).
+  { destruct (arg 2 cv =? 0); [apply B|].
+    unfold rx_tsb. cbv zeta. destruct (dec_tsb _) as [h|]; [|exact Hs].
+    destruct (mid_eqb (pv_addr _) (m_addr m)) eqn:E; [exact Hs|].
+    destruct (rx_mh _ _ _ _ _ _) as [t|] eqn:R; [|exact Hs].
+    cbn. eapply no_own_rx_mh; eauto. }
+  destruct (arg 1 cv =? 6); [|exact Hs].
+  destruct (arg 2 cv =? 0).
+  - unfold rx_lsreq. cbv zeta. destruct (dec_lsreq _) as [h|]; [|exact Hs].
+    destruct (mid_eqb (pv_addr _) (m_addr m)) eqn:E; [exact Hs|].
+    destruct (rx_mh _ _ _ _ _ _) as [t|] eqn:R; [|exact Hs].
+    pose proof (no_own_rx_mh _ _ _ _ _ _ _ _ Hs E R) as Ht.
+    destruct (mid_eqb (skipn 11 h) (m_addr m)); [|exact Ht].
+    destruct (find t _); [|exact Ht]. destruct (take_sn _) eqn:T. cbn.
+    pose proof (take_sn_loct (set_loct s t)) as L. rewrite T in L. cbn in L. rewrite L. exact Ht.
+  - unfold rx_lsrep. cbv zeta. destruct (dec_guc _) as [h|]; [|exact Hs].
+    destruct (mid_eqb (pv_addr _) (m_addr m)) eqn:E; [exact Hs|].
+    destruct (rx_mh _ _ _ _ _ _) as [t|] eqn:R; [|exact Hs].
+    pose proof (no_own_rx_mh _ _ _ _ _ _ _ _ Hs E R) as Ht.
+    destruct (mid_eqb (firstn 3 (skipn 11 h)) (m_addr m)).
+    + match goal with |- context [flush_guc ?m ?s0 ?g ?d ?rs] =>
+        pose proof (no_own_flush m g d rs s0) as F; destruct (flush_guc m s0 g d rs) as [s3 o] end.
+      cbn [fst] in *. apply F; [|exact E]. cbn. apply no_own_set_ls; assumption.
+    + destruct (0 <? arg 5 bv - 1); exact Ht.
+Qed.
